@@ -173,6 +173,23 @@ class ExprMixin:
                     hint = None
                 yield st, SV(val, hint)
                 return
+        if cls is None and cx.spec is None and o.e is not None:
+            # dynamic receiver: objects of the classes that have the attribute / everything else raises AttributeError
+            owners = [c for c in self.reg.attr_owners(attr)]
+            owners += [c for c, ci in self.src.classes.items() if attr in ci.properties and c not in owners]
+            owners = sorted(set(owners), key=lambda c: -len(self.src.mro(c)))
+            if owners:
+                rest = st
+                for c in owners:
+                    br = rest.clone()
+                    br.assume(self.o.is_type(o.e, "ref:" + c))
+                    if self.o.feasible(br):
+                        yield from self.getattr_(br, SV(o.e, "ref:" + c), attr, cx)
+                    rest = rest.clone()
+                    rest.assume(z3.Not(self.o.is_type(o.e, "ref:" + c)))
+                if self.o.feasible(rest):
+                    yield from self.raise_new(rest, "AttributeError")
+                return
         if cls is None:
             raise Unsupported("attribute %s on value of unknown class (%s)" % (attr, o.ty))
         decl = self.reg.attr_decl(self.src, cls, attr)
